@@ -150,6 +150,44 @@ func (c *Ctx) ruleBinarySearch(rule string) {
 		}
 	})
 	c.Check(rule, "BinarySearch#descending-direction", okDir, f.Pos(), "%s", why)
+	// a miss is reported as (insertion position, 0): the callers take a second result of 0 as
+	// "not found, insert at the first result"; a probed index left in it would be taken for a hit
+	okMiss, nMiss := true, 0
+	eachInstr(f, func(in ssa.Instruction) {
+		r, ok := in.(*ssa.Return)
+		if !ok || len(r.Results) != 2 || len(loops) != 1 || loops[0].Blocks[r.Block()] {
+			return
+		}
+		// the return after the loop ended with low > high (not the hit return inside it)
+		afterLoop := false
+		for k, sc := range loops[0].Head.Succs {
+			if !loops[0].Blocks[sc] && x.edgeDominated(loops[0].Head, k)[r.Block()] {
+				afterLoop = true
+			}
+		}
+		if !afterLoop {
+			return
+		}
+		nMiss++
+		for _, pv := range x.PossibleValues(r.Results[1]) {
+			if pv.V == nil {
+				continue // the variable's zero value
+			}
+			if k, isK := constInt(pv.V); !isK || k != 0 {
+				if os.Getenv("GVERIF_DEBUG") != "" {
+					fmt.Fprintf(os.Stderr, "miss: value %s\n", x.Describe(pv.V))
+				}
+				okMiss = false
+			}
+		}
+		if x.Cell(r.Results[0]) != low {
+			if os.Getenv("GVERIF_DEBUG") != "" {
+				fmt.Fprintf(os.Stderr, "miss: cell=%v low=%v\n", x.Cell(r.Results[0]), low)
+			}
+			okMiss = false
+		}
+	})
+	c.Check(rule, "BinarySearch#miss-returns-low-and-zero", okMiss && nMiss >= 1, f.Pos(), "after an unsuccessful search the function must return (low, 0)")
 	// exact hit returns inside the loop
 	okHit := false
 	eachInstr(f, func(in ssa.Instruction) {
